@@ -260,6 +260,7 @@ func TestWorker(t *testing.T) {
 			fmt.Fprintf(os.Stderr, "\nWATCHDOG: run %d exceeded %s of wall-clock time\n", run, watchdogAfter)
 			buf := make([]byte, 1<<20)
 			os.Stderr.Write(buf[:runtime.Stack(buf, true)])
+			fmt.Fprintf(os.Stderr, "\nWATCHDOG: end of goroutine dump for run %d\n", run)
 			if outF != nil {
 				fmt.Fprintf(outF, "{\"type\":\"watchdog\",\"run\":%d}\n", run)
 			}
